@@ -146,13 +146,15 @@ def run_parse_async_stream(ctx, boundary, pieces, delays=None, file_factory=None
     return res
 
 
-def run_wsgi_form(ctx, ct, pieces, in_handler=False, body_first=False):
+def run_wsgi_form(ctx, ct, pieces, in_handler=False, body_first=False, no_content_length=False):
     from baize.wsgi import Request
     body = b"".join(pieces)
     req_abs = AbstractRequest("POST", "/", headers=[("content-type", ct), ("content-length", str(len(body)))], body=body)
     peer = WsgiPeer(ctx, ctx.sched, req_abs, short_reads=False)
     inp = ChunkedInput(pieces)
     peer.environ["wsgi.input"] = inp
+    if no_content_length:      # a de-chunked upload / HTTP/1.0 close-delimited body: the server's input simply ends
+        peer.environ.pop("CONTENT_LENGTH", None)
     req = Request(peer.environ)
     if body_first:      # the raw body was looked at (logging, a signature check) before the form
         req.body
@@ -269,3 +271,18 @@ def abandoned_requests(ctx, boundary, ct, body, cut, delays=None):
         WRequest(peer.environ).form
 
     quiet(wsgi)
+
+
+def len_upload_factory():
+    """An UploadFile subclass that reports its size through len(): falsy while nothing was written yet."""
+    from baize.datastructures import UploadFile
+
+    class LenUpload(UploadFile):
+        def __len__(self):
+            pos = self.file.tell()
+            self.file.seek(0, 2)
+            n = self.file.tell()
+            self.file.seek(pos)
+            return n
+
+    return LenUpload
